@@ -182,15 +182,16 @@ def c20_prefix(payload: str, more: str) -> bool:
     try:
         st.now = lambda: _T0
         st({'data': payload, 'pid': pid, 'name': 'stdout'})
-        st({'data': more, 'pid': pid, 'name': 'stderr'})
+        pid2 = rt.S.get('pid2', pid)                 # the second chunk may come from another worker, within the same second
+        st({'data': more, 'pid': pid2, 'name': 'stderr'})
         content = ''.join(s for _i, s in fs.files[NAME])
-        prefix = '03:04:05 [%d] | ' % pid
         if not content.endswith('\n'):
             return rt.verdict(False)
         lines = content[:-1].split('\n')
-        want = payload.rstrip('\n').split('\n') + more.rstrip('\n').split('\n')
+        want = [('03:04:05 [%d] | ' % pid, x) for x in payload.rstrip('\n').split('\n')] + \
+               [('03:04:05 [%d] | ' % pid2, x) for x in more.rstrip('\n').split('\n')]
         ok = len(lines) == len(want)
-        for ln, w in zip(lines, want):
+        for ln, (prefix, w) in zip(lines, want):
             if not ln.startswith(prefix) or ln[len(prefix):] != w:
                 ok = False
         return rt.verdict(ok)
@@ -303,12 +304,12 @@ def plan(tier):
         Cond('c20_step', budget=120 if tier == 'quick' else 600,
              bounds={'max_bytes': 'R[2, +inf)', 'backup_count': 'R[1,3]', 'pre-existing files': 'any subset of .1..3 with any sizes',
                      'active size': 'R[0, max_bytes)', 'len(w)': 'R[1, max_bytes)'}),
-        Cond('c20_prefix', shards=([{'pid': 4321, 'plen': 2, 'mlen': 1}, {'pid': 1, 'plen': 2, 'mlen': 1}]
-                                   if tier == 'quick' else [{'pid': 4321}, {'pid': 1}]),
+        Cond('c20_prefix', shards=([{'pid': 4321, 'plen': 2, 'mlen': 1}, {'pid': 1, 'pid2': 4321, 'plen': 2, 'mlen': 1}]
+                                   if tier == 'quick' else [{'pid': 4321}, {'pid': 1}, {'pid': 1, 'pid2': 4321}, {'pid': 4321, 'pid2': 4322}]),
              budget=120 if tier == 'quick' else 600,
              bounds={'payload': "R: all strings over {a, newline}, len <= 2 (thorough 3)",
                      'more': 'R: len <= 1 (thorough 2)',
-                     'pid': 'S{1, 4321}'}),
+                     'pid': 'S{1, 4321}; second chunk from the same or another pid (4321 / 4322)'}),
         Cond('c20_append', budget=60 if tier == 'quick' else 300,
              bounds={'w_i': 'R: any str, len <= 4', 'reopen_at': 'R[0,3]'}),
     ]
